@@ -375,3 +375,24 @@ fn compress_literals(
         None
     }
 }
+
+/// Pass-through wrappers for the verification harness (no logic).
+#[cfg(feature = "verif_hooks")]
+pub mod verif {
+    use alloc::vec::Vec;
+
+    pub fn encode_seqnum(seqnum: usize) -> Vec<u8> {
+        let mut writer = crate::bit_io::BitWriter::new();
+        super::encode_seqnum(seqnum, &mut writer);
+        writer.dump()
+    }
+    pub fn encode_literal_length(len: u32) -> (u8, u32, usize) {
+        super::encode_literal_length(len)
+    }
+    pub fn encode_match_len(len: u32) -> (u8, u32, usize) {
+        super::encode_match_len(len)
+    }
+    pub fn encode_offset(len: u32) -> (u8, u32, usize) {
+        super::encode_offset(len)
+    }
+}
